@@ -98,7 +98,18 @@ Fixpoint pb_remove (k : key) (l : list (key * Z)) : list (key * Z) :=
 Inductive op :=
 | OIncr (k : key) (d : Z)        (* ratelimit.ratecounter_increment(rc, k, d): observes the new bucket *)
 | OPbAdd (k : key) (ttl : Z)     (* ratelimit.penaltybox_add(pb, k, ttl) *)
-| OPbHas (k : key).              (* ratelimit.penaltybox_has(pb, k): observes 1 / 0 *)
+| OPbHas (k : key)               (* ratelimit.penaltybox_has(pb, k): observes 1 / 0 *)
+| OCheck (k kpb : key) (d window limit ttl : Z).
+   (* ratelimit.check_rate(k, rc, d, window, limit, pb, ttl): increments, compares the rate over the window
+      (seconds) with the limit, puts the client into the penalty box when exceeded; observes 1 / 0.
+      [kpb] is the same client string as [k], as the penalty box knows it *)
+
+(* Ratecounter.Rate: floor (sum of the increments younger than the window / window seconds) *)
+Fixpoint rc_total (now : Z) (k : key) (win_ms : Z) (es : list (key * Z * Z)) : Z :=
+  match es with
+  | [] => 0%Z
+  | (k', ts, d) :: t => ((if N.eqb k k' && (now - win_ms <? ts)%Z then d else 0) + rc_total now k win_ms t)%Z
+  end.
 
 Definition run_op (now : Z) (o : op) (p : persistent) : persistent * list Z :=
   match o with
@@ -111,6 +122,12 @@ Definition run_op (now : Z) (o : op) (p : persistent) : persistent * list Z :=
       | None => (p, [0%Z])
       | Some e => if (e <? now)%Z then (mkP (p_cache p) (p_rc p) (pb_remove k (p_pb p)), [0%Z]) else (p, [1%Z])
       end
+  | OCheck k kpb d window limit ttl =>
+      let es := (k, now, d) :: p_rc p in
+      let rate := (rc_total now k (window * 1000) es / window)%Z in
+      if (limit <? rate)%Z
+      then (mkP (p_cache p) es ((kpb, now + ttl)%Z :: pb_remove kpb (p_pb p)), [1%Z])
+      else (mkP (p_cache p) es (p_pb p), [0%Z])
   end.
 Fixpoint run_ops (now : Z) (os : list op) (p : persistent) : persistent * list Z :=
   match os with
